@@ -31,7 +31,8 @@ EXPLANATION = (
     "is built from the slot's own order element and rate element of one common zip, the chain's number of stages is the key component that "
     "holds the order, and the chain's rate is read from the rate list at a slot of the chain's own group.  R4 in _collect_delays_from_edges the `discretize` "
     "flag handed to _process_delays for the delay is, on every path, the one set by the test of the same edge's spread (True exactly on "
-    "the no-spread arm); _process_delays hands its flag to every _preprocess_delay call; _preprocess_delay returns the delay unchanged on "
+    "the no-spread arm, or the value of that test itself), and the spread is converted with a flag that is False (the statements are "
+    "looked for in the collector or in a helper extracted from its per-edge loop; De-Morgan'd tests are understood); _process_delays hands its flag to every _preprocess_delay call; _preprocess_delay returns the delay unchanged on "
     "the non-discretising arm.  NOT decided: trajectories, mean/variance of the realised kernel beyond these formulas, behaviour for "
     "(d/s)**2 < 1, agreement of vectorised and non-vectorised forms at run time."
 )
@@ -683,12 +684,18 @@ def r3_grouping_key(ctx, rid):
         n += 1
         oloop, G = outer
         # stores G[key] = ...
+        # the keys under which slots are filed: G[key] (store, or .append on a defaultdict), G.setdefault(key, ...), G.get(key, ...)
         key_exprs = []
         for x in walk_shallow(f.node):
-            if isinstance(x, ast.Subscript) and isinstance(x.value, ast.Name) and x.value.id == G and not contains(oloop, x):
+            if contains(oloop, x):
+                continue
+            if isinstance(x, ast.Subscript) and isinstance(x.value, ast.Name) and x.value.id == G:
                 key_exprs.append(x.slice)
+            elif isinstance(x, ast.Call) and isinstance(x.func, ast.Attribute) and isinstance(x.func.value, ast.Name) \
+                    and x.func.value.id == G and x.func.attr in ("setdefault", "get") and x.args:
+                key_exprs.append(x.args[0])
         if not key_exprs:
-            raise AnalysisError(f"{rid}: {f.qual}: no subscript of the grouping dict `{G}` found")
+            raise AnalysisError(f"{rid}: {f.qual}: no key of the grouping dict `{G}` found (neither `{G}[key]` nor `{G}.setdefault(key, ..)`)")
         # lists of per-slot orders and rates: the rate list is the one the registered rate is read from
         vdefs = U.var_defs(ctx, f)
         a_t, cd0 = _rate_constant(ctx, rid, ch, vdefs)
@@ -715,9 +722,9 @@ def r3_grouping_key(ctx, rid):
             comps = list(kdef.elts) if isinstance(kdef, ast.Tuple) else [kdef]
             srcs = []
             loops = set()
-            for c in comps:
-                cs = set()
-                for nm in ast.walk(c):
+            def trace(e, cs, depth=0):
+                """lists whose elements reach `e` through loop variables, looking through single-definition locals (`r = round(rate, 12)`)"""
+                for nm in ast.walk(e):
                     if isinstance(nm, ast.Name) and isinstance(nm.ctx, ast.Load):
                         s = U.element_source(ctx, f, nm)
                         if isinstance(s, ast.Name):
@@ -725,6 +732,14 @@ def r3_grouping_key(ctx, rid):
                             d = ctx.rd(f).defs_reaching(nm)
                             if d:
                                 loops.add(id(d[0]))
+                        elif s is None and depth < 4:
+                            v = U.single_value(ctx, f, nm)
+                            if v is not None:
+                                trace(v, cs, depth + 1)
+
+            for c in comps:
+                cs = set()
+                trace(c, cs)
                 srcs.append(sorted(cs))
             flat = {s for cs in srcs for s in cs}
             # the per-slot order list: a list whose elements are order values, zipped with the rate list
@@ -838,46 +853,67 @@ def _order_lists(ctx, f, rate_list: str) -> set:
 # ---------------------------------------------------------------------------------------------
 
 def r4_delays_stay_continuous(ctx, rid):
-    f = U.method(ctx, "_collect_delays_from_edges")
+    coll = U.method(ctx, "_collect_delays_from_edges")
     proc = U.method(ctx, "_process_delays")
     pre = U.method(ctx, "_preprocess_delay")
-    # locals holding the edge's delay / spread
-    holders = {}
-    for n in walk_shallow(f.node):
-        if isinstance(n, ast.Assign) and len(n.targets) == 1 and isinstance(n.targets[0], ast.Name):
-            v = n.value
-            k = None
-            if isinstance(v, ast.Subscript):
-                k = const_str(v.slice)
-            elif isinstance(v, ast.Call) and call_name(v) in ("get", "pop") and v.args:
-                k = const_str(v.args[0])
-            if k in ("delay", "spread"):
-                holders[k] = n.targets[0].id
-    if set(holders) != {"delay", "spread"}:
-        raise AnalysisError(f"{rid}: {f.qual}: locals holding the edge's delay and spread not found ({holders})")
+    # locals holding the edge's delay / spread: in the collector or in a helper extracted from its per-edge loop
+    f, holders = U.edge_attr_scope(ctx, coll, ("delay", "spread"), exclude=[proc, pre])
     dn, vn = holders["delay"], holders["spread"]
     calls = [c for c in walk_shallow(f.node) if isinstance(c, ast.Call) and call_name(c) == proc.node.name]
     dcalls = [c for c in calls if c.args and isinstance(c.args[0], ast.Name) and c.args[0].id == dn]
     ctx.require(dcalls, f"{rid}: {f.qual}: the delay `{dn}` is never handed to _process_delays")
-    cfg = ctx.cfg(f)
-    for c in dcalls:
+    for i, c in enumerate(sorted(dcalls, key=lambda c: (c.lineno, c.col_offset))):
         st = _stmt(c)
         kw = [k.value for k in c.keywords if k.arg == "discretize"] or (c.args[1:2])
-        facts = {"call": ast.unparse(c)}
+        facts = {"call": ast.unparse(c), "in": f.qualname}
+        label = "discretize flag of the edge delay" + ("" if i == 0 else f" #{i + 1}")
         if not kw:
-            ctx.violation(rid, f, st, "the delay is handed to _process_delays without a discretize flag (default True): a delay with a spread would be "
-                                      "rounded to whole steps although order and rate are defined for the continuous delay", facts)
+            ctx.violation(rid, coll, st, "the delay is handed to _process_delays without a discretize flag (default True): a delay with a spread would be "
+                                         "rounded to whole steps although order and rate are defined for the continuous delay", facts, label=label)
             continue
         flag = kw[0]
+        if isinstance(flag, ast.Constant):
+            ctx.violation(rid, coll, st, f"the discretize flag for the delay is the fixed expression `{ast.unparse(flag)}`, not the flag computed from this edge's "
+                                         f"spread: a delay with a spread would be converted to steps (n/d would mix steps and time)", facts, label=label)
+            continue
         if not isinstance(flag, ast.Name):
-            ctx.violation(rid, f, st, f"the discretize flag for the delay is the fixed expression `{ast.unparse(flag)}`, not the flag computed from this edge's "
-                                      f"spread: a delay with a spread would be converted to steps (n/d would mix steps and time)", facts)
+            # the spread test written in place: discretize=(v is None or sum(v) == 0)
+            pol = _spread_polarity(flag, vn)
+            if pol is None:
+                raise AnalysisError(f"{rid}: {f.qual}: discretize flag `{ast.unparse(flag)}` of the delay has an unrecognised form")
+            if pol == "absent":
+                ctx.ok(rid, coll, st, "the delay is discretised exactly when this edge's spread is absent/zero (the spread test is the flag)", facts, label=label)
+            else:
+                ctx.violation(rid, coll, st, f"the discretize flag `{ast.unparse(flag)}` is true when the spread is present: a delay with a spread would be rounded "
+                                             f"to steps, an undistributed delay would stay continuous", facts, label=label)
             continue
         defs = ctx.rd(f).defs_reaching(flag)
         loop = U.loop_of(st)
         problems = []
         arms = []
+        computed = 0
         for d in defs:
+            val = assigned_value(d, flag.id) if isinstance(d, ast.stmt) else None
+            if val is not None and not isinstance(val, ast.Constant):
+                # the flag holds the spread test itself: discretize = v is None or sum(v) == 0
+                if loop is not None and not contains(loop, d):
+                    problems.append(f"`{norm(d)}` reaches from outside the per-edge loop (another edge's flag)")
+                    continue
+                pol = _spread_polarity(val, vn)
+                if pol is None:
+                    if U.mentions(val, vn):
+                        raise AnalysisError(f"{rid}: {f.qual}: spread test `{ast.unparse(val)}` has an unrecognised form")
+                    problems.append(f"`{norm(d)}` is not a test of the spread `{vn}`")
+                    continue
+                # the spread tested must be the one read from this edge, not a value the local receives later
+                if not _same_spread(ctx, f, val, vn):
+                    raise AnalysisError(f"{rid}: {f.qual}: `{norm(d)}` tests `{vn}` at a point where it no longer holds the edge's attribute only")
+                computed += 1
+                arms.append((norm(d), "true iff no spread" if pol == "absent" else "true iff spread present"))
+                if pol != "absent":
+                    problems.append(f"`{norm(d)}` is true when the spread is present: a delay with a spread would be rounded to steps, an undistributed "
+                                    f"delay would stay continuous")
+                continue
             if not isinstance(d, ast.Assign) or not isinstance(d.value, ast.Constant) or not isinstance(d.value.value, bool):
                 problems.append(f"`{flag.id}` may come from `{norm(d) if isinstance(d, ast.stmt) else 'a parameter'}`, not from a True/False set by the spread test")
                 continue
@@ -885,13 +921,13 @@ def r4_delays_stay_continuous(ctx, rid):
                 problems.append(f"`{norm(d)}` reaches from outside the per-edge loop (another edge's flag)")
                 continue
             chain = U.branch_chain(d)
-            # innermost If whose test mentions the spread local
-            guard = [(i, arm) for i, arm in chain if vn in {x.id for x in ast.walk(i.test) if isinstance(x, ast.Name)}]
+            # innermost If whose test is about the spread local (directly or through a flag local that holds the test)
+            guard = [(gi, arm, _no_spread_arm(ctx, f, gi.test, vn)) for gi, arm in chain]
+            guard = [g_ for g_ in guard if g_[2] is not None or U.mentions(g_[0].test, vn)]
             if not guard:
                 problems.append(f"`{norm(d)}` is not controlled by a test of the spread `{vn}`")
                 continue
-            gi, arm = guard[0]
-            none_arm = _no_spread_arm(gi.test, vn)
+            gi, arm, none_arm = guard[0]
             if none_arm is None:
                 raise AnalysisError(f"{rid}: {f.qual}: spread test `{ast.unparse(gi.test)}` has an unrecognised form")
             no_spread_here = (arm == none_arm)
@@ -899,15 +935,47 @@ def r4_delays_stay_continuous(ctx, rid):
             if d.value.value != no_spread_here:
                 problems.append(f"`{norm(d)}` sits on the arm where the spread is {'absent' if no_spread_here else 'present'}: "
                                 f"{'undistributed delays would stay continuous' if no_spread_here else 'a delay with a spread would be rounded to steps'}")
-            # the spread tested must be this edge's: same definition of vn at the test and in this iteration
         facts["flag_definitions"] = arms
-        if len(defs) < 2 and not problems:
+        if len(defs) < 2 and not computed and not problems:
             problems.append(f"`{flag.id}` has a single definition: it cannot distinguish edges with and without spread")
         if problems:
-            ctx.violation(rid, f, st, "; ".join(problems), facts)
+            ctx.violation(rid, coll, st, "; ".join(problems), facts, label=label)
         else:
-            ctx.ok(rid, f, st, f"the delay is discretised exactly when this edge's spread is absent/zero (flag `{flag.id}` set on both arms of the spread test "
-                               f"in the same iteration)", facts)
+            ctx.ok(rid, coll, st, f"the delay is discretised exactly when this edge's spread is absent/zero (flag `{flag.id}` "
+                                  f"{'holds the spread test' if computed else 'set on both arms of the spread test'} in the same iteration)", facts, label=label)
+    # the spread is a time as well: it is handed to _process_delays with a flag that is False
+    scalls = [c for c in calls if c.args and isinstance(c.args[0], ast.Name) and c.args[0].id == vn]
+    for i, c in enumerate(sorted(scalls, key=lambda c: (c.lineno, c.col_offset))):
+        st = _stmt(c)
+        kw = [k.value for k in c.keywords if k.arg == "discretize"] or (c.args[1:2])
+        label = "discretize flag of the edge spread" + ("" if i == 0 else f" #{i + 1}")
+        facts = {"call": ast.unparse(c), "in": f.qualname}
+        vals = None
+        if kw and isinstance(kw[0], ast.Constant) and isinstance(kw[0].value, bool):
+            vals = {kw[0].value}
+        elif kw and isinstance(kw[0], ast.Name):
+            vals = set()
+            for d in ctx.rd(f).defs_reaching(kw[0]):
+                val = assigned_value(d, kw[0].id) if isinstance(d, ast.stmt) else None
+                if isinstance(val, ast.Constant) and isinstance(val.value, bool):
+                    vals.add(val.value)
+                elif val is not None and _spread_polarity(val, vn) == "absent" and _same_spread(ctx, f, val, vn) and any(
+                        _no_spread_arm(ctx, f, gi.test, vn) is not None and _no_spread_arm(ctx, f, gi.test, vn) != arm
+                        for gi, arm in U.branch_chain(st)):
+                    vals.add(False)         # flag == "no spread", and the call sits on the arm where a spread is present
+                else:
+                    vals = None
+                    break
+        elif not kw:
+            vals = {True}
+        if vals is None or not vals:
+            raise AnalysisError(f"{rid}: {f.qual}: cannot decide the discretize flag of `{ast.unparse(c)}` (unrecognised form)")
+        if vals == {False}:
+            ctx.ok(rid, coll, st, "the spread is kept in time units (discretize is False where it is converted)", facts, label=label)
+        else:
+            ctx.violation(rid, coll, st, f"the spread is handed to _process_delays with discretize "
+                                         f"{'defaulting to True' if not kw else 'possibly True'}: it would be rounded to whole steps while the delay of an edge "
+                                         f"with spread stays a time, so (delay/spread)**2 would mix units", facts, label=label)
     # _process_delays forwards the flag to every conversion
     pcalls = [c for c in walk_shallow(proc.node) if isinstance(c, ast.Call) and call_name(c) == pre.node.name]
     ctx.require(pcalls, f"{rid}: {proc.qual}: no call of _preprocess_delay")
@@ -940,61 +1008,109 @@ def r4_delays_stay_continuous(ctx, rid):
             for i, arm in U.branch_chain(r):
                 arms.append((i.test, v, arm))
         for test, val, arm in arms:
-            pos = _flag_polarity(test, fpar)
-            if pos is None:
+            cont = U.flag_arm_when_false(test, fpar)        # the arm certainly taken when the flag is False
+            if cont is None:
+                if U.mentions(test, fpar):
+                    raise AnalysisError(f"{rid}: {pre.qual}: test `{ast.unparse(test)}` of the discretize flag has an unrecognised form")
                 continue
-            cont_arm = (arm != pos)          # the arm taken when the flag is False
-            if cont_arm:
+            if arm == cont:
                 found = True
-                if isinstance(val, ast.Name) and val.id == dpar:
+                if isinstance(val, ast.Name) and val.id == dpar and U.is_param(ctx, pre, val):
                     ctx.ok(rid, pre, r, "with discretize=False the delay is returned unchanged", label="continuous arm")
                 else:
                     ctx.violation(rid, pre, r, f"with discretize=False `_preprocess_delay` returns `{ast.unparse(val)}`, not the delay itself", label="continuous arm")
     if not found:
-        if len(rets) >= 1 and any(isinstance(r.value, ast.Name) and r.value.id == dpar for r in rets):
-            ctx.ok(rid, pre, rets[-1], "the fall-through return hands the delay back unchanged", label="continuous arm", nontrivial=False)
+        # guard form: `if discretize and ...: return <steps>` followed by a fall-through `return delay`
+        guarded = [r for r in rets if any(U.flag_arm_when_false(i.test, fpar) is not None and U.flag_arm_when_false(i.test, fpar) != arm
+                                          for i, arm in U.branch_chain(r))]
+        plain = [r for r in rets if not U.branch_chain(r)]
+        if guarded and len(plain) == 1:
+            r = plain[0]
+            if isinstance(r.value, ast.Name) and r.value.id == dpar and U.is_param(ctx, pre, r.value):
+                ctx.ok(rid, pre, r, "the fall-through return (reached whenever discretize is False) hands the delay back unchanged", label="continuous arm")
+            else:
+                ctx.violation(rid, pre, r, f"with discretize=False `_preprocess_delay` falls through to `{norm(r)}`, which does not return the delay itself",
+                              label="continuous arm")
         else:
             raise AnalysisError(f"{rid}: {pre.qual}: no arm controlled by `{fpar}` found (unrecognised form)")
 
 
-def _no_spread_arm(test, vn) -> Optional[bool]:
-    """For the test of the spread: the arm (True=body) that is taken when there is NO spread."""
-    parts = test.values if isinstance(test, ast.BoolOp) and isinstance(test.op, ast.Or) else [test]
-    kinds = set()
-    for p in parts:
-        if isinstance(p, ast.Compare) and len(p.ops) == 1:
-            l, op, r = p.left, p.ops[0], p.comparators[0]
-            if isinstance(l, ast.Name) and l.id == vn and isinstance(r, ast.Constant) and r.value is None and isinstance(op, ast.Is):
-                kinds.add("absent")
-                continue
-            mentions = vn in {x.id for x in ast.walk(l) if isinstance(x, ast.Name)}
-            if mentions and isinstance(r, ast.Constant) and r.value == 0 and isinstance(op, ast.Eq):
-                kinds.add("absent")
-                continue
-            if mentions and isinstance(r, ast.Constant) and r.value == 0 and isinstance(op, (ast.Gt, ast.NotEq)) and len(parts) == 1:
-                kinds.add("present")
-                continue
-        if isinstance(p, ast.UnaryOp) and isinstance(p.op, ast.Not) and isinstance(p.operand, ast.Name) and p.operand.id == vn:
-            kinds.add("absent")
-            continue
+def _spread_polarity(test, vn) -> Optional[str]:
+    """'absent': `test` is true exactly when the edge has no spread (None / sums to zero / falsy); 'present': the negation;
+    None: unrecognised.  `or` of absent-atoms and `and` of present-atoms (the De-Morgan'd twin) are understood, `not` flips."""
+    if isinstance(test, ast.UnaryOp) and isinstance(test.op, ast.Not):
+        if isinstance(test.operand, ast.Name) and test.operand.id == vn:
+            return "absent"
+        p = _spread_polarity(test.operand, vn)
+        return None if p is None else ("present" if p == "absent" else "absent")
+    if isinstance(test, ast.BoolOp):
+        ps = [_spread_polarity(v, vn) for v in test.values]
+        if isinstance(test.op, ast.Or) and all(p == "absent" for p in ps):
+            return "absent"
+        if isinstance(test.op, ast.And) and all(p == "present" for p in ps):
+            return "present"
         return None
-    if kinds == {"absent"}:
-        return True
-    if kinds == {"present"}:
-        return False
+    if isinstance(test, ast.Name) and test.id == vn:
+        return "present"
+    if isinstance(test, ast.Compare) and len(test.ops) == 1:
+        l, op, r = test.left, test.ops[0], test.comparators[0]
+        swapped = False
+        if isinstance(l, ast.Constant) and not isinstance(r, ast.Constant):
+            l, r, swapped = r, l, True
+        if not isinstance(r, ast.Constant):
+            return None
+        if r.value is None and isinstance(l, ast.Name) and l.id == vn:
+            if isinstance(op, (ast.Is, ast.Eq)):
+                return "absent"
+            if isinstance(op, (ast.IsNot, ast.NotEq)):
+                return "present"
+            return None
+        if r.value == 0 and r.value is not False and U.mentions(l, vn):
+            if isinstance(op, ast.Eq):
+                return "absent"
+            if isinstance(op, ast.NotEq):
+                return "present"
+            if isinstance(op, ast.Gt) and not swapped:      # sum(v) > 0
+                return "present"
+            if isinstance(op, ast.Lt) and swapped:          # 0 < sum(v)
+                return "present"
+            if isinstance(op, ast.LtE) and not swapped:     # sum(v) <= 0  (spreads are non-negative)
+                return "absent"
+            if isinstance(op, ast.GtE) and swapped:
+                return "absent"
     return None
 
 
-def _flag_polarity(test, fpar) -> Optional[bool]:
-    """True if the test is true only when the flag is True (`flag`, `flag and ...`); False for `not flag`; None if unrelated."""
-    parts = test.values if isinstance(test, ast.BoolOp) and isinstance(test.op, ast.And) else [test]
-    for p in parts:
-        if isinstance(p, ast.Name) and p.id == fpar:
-            return True
-        if isinstance(p, ast.UnaryOp) and isinstance(p.op, ast.Not) and isinstance(p.operand, ast.Name) and p.operand.id == fpar and len(parts) == 1:
-            return False
+def _no_spread_arm(ctx, f, test, vn, _depth=0) -> Optional[bool]:
+    """For an `if` whose test is about the spread: the arm (True = body) that is taken when there is NO spread.  A test that is a
+    flag local with a single definition (`no_spread = v is None or ...; if no_spread:`) is looked through."""
+    p = _spread_polarity(test, vn)
+    if p is not None:
+        return p == "absent"
+    if isinstance(test, ast.UnaryOp) and isinstance(test.op, ast.Not):
+        a = _no_spread_arm(ctx, f, test.operand, vn, _depth)
+        return None if a is None else not a
+    if isinstance(test, ast.Name) and _depth < 3:
+        v = U.single_value(ctx, f, test)
+        if v is not None and not isinstance(v, ast.Constant):
+            return _no_spread_arm(ctx, f, v, vn, _depth + 1)
     return None
 
+
+def _same_spread(ctx, f, test, vn) -> bool:
+    """Every read of the spread local inside `test` sees only definitions that read the edge attribute (x = edge['spread'] / .pop / .get)."""
+    rd = ctx.rd(f)
+    for x in ast.walk(test):
+        if isinstance(x, ast.Name) and x.id == vn and isinstance(x.ctx, ast.Load):
+            for d in rd.defs_reaching(x):
+                v = assigned_value(d, vn) if isinstance(d, ast.stmt) else None
+                if v is None:
+                    return False
+                k = const_str(v.slice) if isinstance(v, ast.Subscript) else (
+                    const_str(v.args[0]) if isinstance(v, ast.Call) and call_name(v) in ("get", "pop") and v.args else None)
+                if k != "spread":
+                    return False
+    return True
 
 
 def r5_identity_shortcut(ctx, rid):
@@ -1062,7 +1178,7 @@ RULES = [
     ("C11-R1", r1_order_and_rate, 5),
     ("C11-R2", r2_stage_equations, 8),
     ("C11-R3", r3_grouping_key, 3),
-    ("C11-R4", r4_delays_stay_continuous, 5),
+    ("C11-R4", r4_delays_stay_continuous, 4),     # delay flag, spread flag, >= 1 forwarding, continuous arm (6 today)
     ("C11-R5", r5_identity_shortcut, 1),
     ("C11-R6", r_perm_identity, 1),
 ]
